@@ -192,6 +192,7 @@ structure Acc where
 structure DSt where
   st : St := init true
   cls : List (Nat × Closure) := []
+  vfs : List (Nat × VFlag) := []
   persps : List (Nat × List POpt) := []
   acc : Acc := {}
 
@@ -270,6 +271,24 @@ def handleSeq (d : DSt) (ws : List String) : DSt × String :=
     | some id =>
       match assocGet d.cls id with
       | some cl => let (cl', v) := cl.call d.st; ({ d with cls := assocSet d.cls id cl' }, showGVal v)
+      | none => bad d
+    | none => bad d
+  | ["vfnew", id] =>
+    match id.toNat? with
+    | some id => ({ d with vfs := assocSet d.vfs id VFlag.new }, "ok")
+    | none => bad d
+  | ["vfrefresh", id] =>
+    match id.toNat? with
+    | some id =>
+      match assocGet d.vfs id with
+      | some vf => ({ d with vfs := assocSet d.vfs id (vf.refresh d.st) }, "ok")
+      | none => bad d
+    | none => bad d
+  | ["vfvalid", id] =>
+    match id.toNat? with
+    | some id =>
+      match assocGet d.vfs id with
+      | some vf => (d, if vf.isValid d.st then "valid" else "invalid")
       | none => bad d
     | none => bad d
   | ["uv", k] =>
